@@ -2,6 +2,8 @@ package checks
 
 import (
 	"fmt"
+	"google.golang.org/protobuf/proto"
+	"google.golang.org/protobuf/reflect/protoreflect"
 	"sort"
 	"strings"
 
@@ -457,6 +459,175 @@ func init() {
 								r.Fail("special-element|"+fmt.Sprintf("%q", f.s)+"|"+pi.Key(), core.W{"input": f.s, "panic": pi.Raw})
 							}
 							r.Eval()
+						}
+					}
+				}},
+				{Name: "references-from-resources", N: len(types), Note: fmt.Sprintf("%d types x 14 ids x 6 versions: the identity, URIs and references derived from a resource instance (IdentityOf, URIString, VersionedURIString, VersionETag, TypedFromResource, WeakRelativeVersioned) name that resource: they parse back to its type, id and version, and the typed and the weak reference are the same reference; canonical resources: FromResource / VersionedFromResource / FragmentFromResource / canonical.IdentityOf reassemble the url, version and id", len(types)), Run: func(i int, r *core.Rec) {
+					t := resource.Type(types[i])
+					tn := string(t)
+					for _, id := range c19IDs {
+						for _, v := range c19Versions {
+							res := resource.New(t)
+							rf := res.ProtoReflect()
+							if id.s != "" || true {
+								rf.Set(rf.Descriptor().Fields().ByName("id"), protoreflect.ValueOfMessage((&dtpb.Id{Value: id.s}).ProtoReflect()))
+							}
+							if v.s != "" {
+								rf.Set(rf.Descriptor().Fields().ByName("meta"), protoreflect.ValueOfMessage((&dtpb.Meta{VersionId: &dtpb.Id{Value: v.s}}).ProtoReflect()))
+							}
+							valid := id.valid && v.valid
+							r.State(fmt.Sprintf("from-resource|valid=%v|versioned=%v", valid, v.s != ""))
+							w := core.W{"type": tn, "id": id.s, "version": v.s}
+							var ident *resource.Identity
+							var okI bool
+							var uri, vuri, etag string
+							var okV bool
+							var typed, weak *dtpb.Reference
+							var terr, werr error
+							pi := core.Try(func() {
+								ident, okI = resource.IdentityOf(res)
+								uri = resource.URIString(res)
+								vuri, okV = resource.VersionedURIString(res)
+								etag = resource.VersionETag(res)
+								typed, terr = reference.TypedFromResource(res)
+								weak, werr = reference.WeakRelativeVersioned(res)
+							})
+							r.Eval()
+							r.Nontrivial(tn, id.s, v.s, fmt.Sprint(terr == nil, werr == nil))
+							if pi != nil {
+								r.Fail("from-resource|"+pi.Key(), w)
+								continue
+							}
+							if !okI || ident == nil || string(ident.Type()) != tn || ident.ID() != id.s {
+								r.Fail("from-resource|IdentityOf|wrong-components", w)
+								continue
+							}
+							if gv, has := ident.VersionID(); gv != v.s || has != (v.s != "") {
+								r.Fail("from-resource|IdentityOf|wrong-version", w)
+							}
+							if uri != tn+"/"+id.s || okV != (v.s != "") || okV && vuri != tn+"/"+id.s+"/_history/"+v.s || (etag != "") != (v.s != "") || v.s != "" && etag != `W/"`+v.s+`"` {
+								w["uri"], w["versioned_uri"], w["etag"] = uri, vuri, etag
+								r.Fail("from-resource|uri-forms|wrong-text", w)
+							}
+							if !valid {
+								continue // what the parsers make of invalid ids is the business of the other sub-spaces
+							}
+							// the formatted forms parse back to the identity
+							for _, f := range []struct {
+								name, text string
+								versioned  bool
+							}{{"URIString", uri, false}, {"VersionedURIString", vuri, true}} {
+								if f.versioned && !okV {
+									continue
+								}
+								back, perr := reference.IdentityFromURL(f.text)
+								r.Eval()
+								want := ident
+								if !f.versioned {
+									want = ident.Unversioned()
+								}
+								if perr != nil || !back.Equal(want) {
+									w["text"], w["err"] = f.text, fmt.Sprint(perr)
+									r.Fail("from-resource|"+f.name+"|does-not-parse-back-to-the-identity", w)
+								}
+							}
+							// typed reference: names the resource without a version, and is the same reference as the untyped one
+							if terr != nil {
+								w["err"] = terr.Error()
+								r.Fail("from-resource|TypedFromResource|rejects-a-valid-resource", w)
+							} else {
+								ti, ierr := reference.IdentityOf(typed)
+								untyped := reference.Weak(t, uri)
+								r.Eval()
+								if ierr != nil || !ti.Equal(ident.Unversioned()) {
+									w["typed"], w["err"] = fmt.Sprint(typed), fmt.Sprint(ierr)
+									r.Fail("from-resource|TypedFromResource|names-another-resource", w)
+								}
+								if !reference.Is(typed, untyped) || !reference.Is(untyped, typed) {
+									w["typed"], w["untyped"] = fmt.Sprint(typed), fmt.Sprint(untyped)
+									r.Fail("from-resource|TypedFromResource|is-not-the-untyped-reference", w)
+								}
+								if byID, e2 := reference.Typed(t, id.s); e2 != nil || !proto.Equal(byID, typed) {
+									r.Fail("from-resource|TypedFromResource|differs-from-Typed(type,id)", w)
+								}
+							}
+							// weak relative versioned reference: exactly when there is a version
+							if v.s == "" {
+								if werr == nil {
+									r.Fail("from-resource|WeakRelativeVersioned|accepts-a-resource-without-version", w)
+								}
+							} else if werr != nil {
+								w["err"] = werr.Error()
+								r.Fail("from-resource|WeakRelativeVersioned|rejects-a-valid-resource", w)
+							} else {
+								wi, ierr := reference.IdentityOf(weak)
+								r.Eval()
+								if ierr != nil || !wi.Equal(ident) || weak.GetUri().GetValue() != vuri || weak.GetType().GetValue() != tn {
+									w["weak"], w["err"] = fmt.Sprint(weak), fmt.Sprint(ierr)
+									r.Fail("from-resource|WeakRelativeVersioned|names-another-resource", w)
+								}
+								if tv := reference.TypedFromIdentity(ident); !reference.Is(tv, weak) || !reference.Is(weak, tv) {
+									r.Fail("from-resource|WeakRelativeVersioned|is-not-the-typed-versioned-reference", w)
+								}
+							}
+						}
+					}
+					// canonical resources
+					if cres, isC := resource.New(t).(fhir.CanonicalResource); isC {
+						for _, u := range []string{"http://example.org/fhir/" + tn + "/x", "http://example.org/fhir/" + tn + "/body%20site", "urn:oid:1.2.3"} {
+							for _, ver := range []string{"", "1.0.0", "2020-01"} {
+								for _, id := range []string{"", "frag1"} {
+									cr := proto.Clone(cres).(fhir.CanonicalResource)
+									crf := cr.ProtoReflect()
+									crf.Set(crf.Descriptor().Fields().ByName("url"), protoreflect.ValueOfMessage((&dtpb.Uri{Value: u}).ProtoReflect()))
+									if ver != "" {
+										crf.Set(crf.Descriptor().Fields().ByName("version"), protoreflect.ValueOfMessage((&dtpb.String{Value: ver}).ProtoReflect()))
+									}
+									if id != "" {
+										crf.Set(crf.Descriptor().Fields().ByName("id"), protoreflect.ValueOfMessage((&dtpb.Id{Value: id}).ProtoReflect()))
+									}
+									w := core.W{"type": tn, "url": u, "version": ver, "id": id}
+									var plain, versioned, frag *dtpb.Canonical
+									var ci *resource.CanonicalIdentity
+									var e1, e2, e3, e4 error
+									pi := core.Try(func() {
+										plain, e1 = canonical.FromResource(cr)
+										versioned, e2 = canonical.VersionedFromResource(cr)
+										frag, e3 = canonical.FragmentFromResource(cr)
+										ci, e4 = canonical.IdentityOf(cr)
+									})
+									r.Eval()
+									r.State("from-canonical-resource")
+									r.Nontrivial(tn, u, ver, id)
+									if pi != nil {
+										r.Fail("from-canonical-resource|"+pi.Key(), w)
+										continue
+									}
+									wantV := u
+									if ver != "" {
+										wantV += "|" + ver
+									}
+									wantF := u
+									if id != "" {
+										wantF += "#" + id
+									}
+									if e1 != nil || e2 != nil || e3 != nil || e4 != nil || plain.GetValue() != u || versioned.GetValue() != wantV || frag.GetValue() != wantF || ci == nil || ci.String() != wantV {
+										w["FromResource"], w["VersionedFromResource"], w["FragmentFromResource"], w["IdentityOf"] = plain.GetValue(), versioned.GetValue(), frag.GetValue(), fmt.Sprint(ci)
+										w["errors"] = fmt.Sprint(e1, e2, e3, e4)
+										r.Fail("from-canonical-resource|wrong-assembly", w)
+										continue
+									}
+									// and they split again into the same parts
+									for _, c := range []*dtpb.Canonical{plain, versioned, frag} {
+										back, perr := canonical.IdentityFromReference(c)
+										r.Eval()
+										if perr != nil || back.String() != c.GetValue() {
+											w["canonical"], w["reassembled"], w["err"] = c.GetValue(), fmt.Sprint(back), fmt.Sprint(perr)
+											r.Fail("from-canonical-resource|split-and-reassemble-changes-it", w)
+										}
+									}
+								}
+							}
 						}
 					}
 				}},
